@@ -10,29 +10,29 @@ Open Scope N_scope.
    observation of the specification: verdicts by the (kind, name, revision) keys of the accepted items, every
    Process and query answered by a batch run on a fresh set loaded with exactly the accepted items. *)
 Theorem C18_history_refinement :
-  forall (obs : Type) (sem : view -> obs) (ord : list ghdr -> list ghdr) (ops : list op),
-  snd (run sem ord now NewState ops) = snd (spec_run sem ord now a_init ops).
+  forall (obs : Type) (sem : view -> obs) (ops : list op),
+  snd (run sem now NewState ops) = snd (spec_run sem now a_init ops).
 Proof. exact refinement_now. Qed.
 
 (* the same for every variant of the code that contains all five repairs *)
 Theorem C18_history_refinement_fixed :
-  forall (obs : Type) (sem : view -> obs) (ord : list ghdr -> list ghdr) (fx : fixes) (ops : list op),
+  forall (obs : Type) (sem : view -> obs) (fx : fixes) (ops : list op),
   all_fixed fx = true ->
-  snd (run sem ord fx NewState ops) = snd (spec_run sem ord fx a_init ops).
+  snd (run sem fx NewState ops) = snd (spec_run sem fx a_init ops).
 Proof. exact refinement. Qed.
 
 (* processing twice gives what processing once gives, after any history *)
 Theorem C18_process_twice :
-  forall (obs : Type) (sem : view -> obs) (ord : list ghdr -> list ghdr) (pre : list op),
-  let st := fst (run sem ord now NewState pre) in
-  snd (Process sem ord now (fst (Process sem ord now st))) = snd (Process sem ord now st).
+  forall (obs : Type) (sem : view -> obs) (pre : list op),
+  let st := fst (run sem now NewState pre) in
+  snd (Process sem now (fst (Process sem now st))) = snd (Process sem now st).
 Proof. exact process_twice_now. Qed.
 
 (* loading more after a Process and processing again = loading everything accepted into a fresh set first *)
 Theorem C18_incremental :
-  forall (obs : Type) (sem : view -> obs) (ord : list ghdr -> list ghdr) (pre : list op) (more : list text),
-  let st := fst (run sem ord now NewState (pre ++ Proc :: map Load more)) in
-  snd (Process sem ord now st) = batch sem ord now (accepted obs sem ord now (pre ++ Proc :: map Load more)).
+  forall (obs : Type) (sem : view -> obs) (pre : list op) (more : list text),
+  let st := fst (run sem now NewState (pre ++ Proc :: map Load more)) in
+  snd (Process sem now st) = batch sem now (accepted obs sem now (pre ++ Proc :: map Load more)).
 Proof. exact incremental_now. Qed.
 
 (* a load that fails changes nothing at all in the Modules value ... *)
@@ -43,9 +43,9 @@ Proof. exact failed_load_no_trace_now. Qed.
 
 (* ... so every later load, Process and query runs exactly as if the text had not been offered *)
 Theorem C18_failed_load_invisible :
-  forall (obs : Type) (sem : view -> obs) (ord : list ghdr -> list ghdr) (st : state obs) (t : text) (post : list op),
+  forall (obs : Type) (sem : view -> obs) (st : state obs) (t : text) (post : list op),
   snd (load now st t) = false ->
-  run sem ord now st (Load t :: post) = (fst (run sem ord now st post), OLoad false :: snd (run sem ord now st post)).
+  run sem now st (Load t :: post) = (fst (run sem now st post), OLoad false :: snd (run sem now st post)).
 Proof. exact failed_load_invisible_now. Qed.
 
 (* ---------------------------------------------------------------- every variant of the code, the pinned one included *)
@@ -57,9 +57,9 @@ Proof. exact failed_load_no_trace. Qed.
 
 (* loads followed by the FIRST Process agree with the specification outside the shape D43 *)
 Theorem C18_first_process_partial :
-  forall (obs : Type) (sem : view -> obs) (ord : list ghdr -> list ghdr) (fx : fixes) (ts : list text),
+  forall (obs : Type) (sem : view -> obs) (fx : fixes) (ts : list text),
   no_partial [] (map Load ts) ->
-  snd (run sem ord fx NewState (map Load ts ++ [Proc])) = snd (spec_run sem ord fx a_init (map Load ts ++ [Proc])).
+  snd (run sem fx NewState (map Load ts ++ [Proc])) = snd (spec_run sem fx a_init (map Load ts ++ [Proc])).
 Proof. exact first_process. Qed.
 
 (* ---------------------------------------------------------------- witnesses *)
@@ -73,7 +73,7 @@ Definition mk (id : N) (k : kind) (name : N) (revs : list N) (ns : N) (bel : opt
      g_idents := map s1 ids |}.
 Definition L (g : ghdr) : op := Load (Items [Good g]).
 Definition hist (fx : fixes) (ops : list op) := snd (run_view fx ops).
-Definition ref (fx : fixes) (ops : list op) := snd (spec_run (fun v => v) (fun l => l) fx a_init ops).
+Definition ref (fx : fixes) (ops : list op) := snd (spec_run (fun v => v) fx a_init ops).
 (* the code before each repair (every other repair present), and [pinned] = before all of them *)
 Definition before_07ff912 := {| fx_atomic := false; fx_byns := true; fx_types := true; fx_idents := true; fx_binds := true |}.
 Definition before_9f6d850 := {| fx_atomic := true; fx_byns := false; fx_types := true; fx_idents := true; fx_binds := true |}.
